@@ -30,16 +30,17 @@ Record av := mkAv {
   a_hd : list frame;            (* handled *)
   a_sn : list frame;            (* sent *)
   a_sc : list (N * N);          (* successful "send finished" signals *)
-  a_ids : list N                (* ids returned by send_bundle_data *)
+  a_ids : list N;               (* ids returned by send_bundle_data *)
+  a_ev : list event             (* "send started" and "finished: terminating" signals *)
 }.
 
 #[export] Instance eta_av : Settable _ := settable! mkAv
-  <a_q; a_pas; a_cl; a_ic; a_is; a_it; a_nid; a_ps; a_tt; a_tl; a_hd; a_sn; a_sc; a_ids>.
+  <a_q; a_pas; a_cl; a_ic; a_is; a_it; a_nid; a_ps; a_tt; a_tl; a_hd; a_sn; a_sc; a_ids; a_ev>.
 
 Definition sv (q : list bytes) (s : ep) : av :=
   mkAv q (c_passive (cf s)) (closed s) (in_conn s) (in_sess s) (in_term s) (next_id s)
        (pend_start s) (tx_tmp s) (tx_len s) (handled s) (sent s)
-       (succ_events (trace s)) (send_ids (trace s)).
+       (succ_events (trace s)) (send_ids (trace s)) (filter note (trace s)).
 
 (** The segment produced by one pass of [_process_queue] with segment size [k]. *)
 Definition next_seg (id : N) (data : bytes) (tl : N) (k : nat) : bytes :=
@@ -50,7 +51,7 @@ Definition seg_flags (tl newlen total : N) : N :=
 Inductive astep : av -> av -> Prop :=
 | A_send v f : seg_of_frame f = [] -> is_refuse f = false ->
     astep v (v <| a_sn := a_sn v ++ [f] |>)
-| A_close v : astep v (v <| a_cl := true |>)
+| A_close v : astep v (v <| a_ev := a_ev v ++ map term_ev (a_ps v) |> <| a_ps := [] |> <| a_cl := true |>)   (* a close drops the transfers not yet started *)
 | A_handle v f : a_cl v = false -> astep v (v <| a_hd := a_hd v ++ [f] |>)
 | A_conn v : a_pas v = true \/ a_cl v = true \/ existsb is_sess_init (a_sn v) = true ->
     astep v (v <| a_ic := true |>)
@@ -61,14 +62,15 @@ Inductive astep : av -> av -> Prop :=
 | A_queue v d : a_cl v = false ->
     astep v (v <| a_q := a_q v ++ [d] |> <| a_nid := a_nid v + 1 |>
                <| a_ps := a_ps v ++ [(a_nid v, d)] |> <| a_ids := a_ids v ++ [a_nid v] |>)
-| A_flush v : a_it v = true -> astep v (v <| a_ps := [] |>)
+| A_flush v : a_it v = true -> astep v (v <| a_ev := a_ev v ++ map term_ev (a_ps v) |> <| a_ps := [] |>)
 | A_refuse_ps v r xid : In (FMsg (MXferRefuse r xid)) (a_hd v) ->
     astep v (v <| a_ps := dict_del xid (a_ps v) |>)
 | A_refuse_cur v r xid data : In (FMsg (MXferRefuse r xid)) (a_hd v) -> a_tt v = Some (xid, data) ->
     astep v (v <| a_tt := None |> <| a_tl := 0 |>)
 | A_start v id data rest : a_tt v = None -> a_is v = true -> a_it v = false ->
-    a_ps v = (id, data) :: rest ->
-    astep v (v <| a_ps := rest |> <| a_tt := Some (id, data) |> <| a_tl := 0 |>)
+    a_ps v = (id, data) :: rest -> a_cl v = false ->
+    astep v (v <| a_ps := rest |> <| a_tt := Some (id, data) |> <| a_tl := 0 |>
+               <| a_ev := a_ev v ++ [started_ev id (N.of_nat (length data))] |>)
 | A_seg v id data k :
     a_tt v = Some (id, data) ->
     (a_tl v =? N.of_nat (length data)) && (0 <? a_tl v) = false ->
@@ -115,15 +117,19 @@ Proof. apply flat_map_app. Qed.
 Lemma send_ids_app a b : send_ids (a ++ b) = send_ids a ++ send_ids b.
 Proof. apply flat_map_app. Qed.
 
+Lemma filter_app_l {A} (f : A -> bool) a b : filter f (a ++ b) = filter f a ++ filter f b.
+Proof. induction a as [|x a IH]; cbn [filter app]; [reflexivity|]. destruct (f x); cbn [app]; rewrite IH; reflexivity. Qed.
+
 Lemma sv_emit q e s :
-  sv q (emit e s) = sv q s <| a_sc := a_sc (sv q s) ++ succ_of e |> <| a_ids := a_ids (sv q s) ++ send_ids [e] |>.
+  sv q (emit e s) = sv q s <| a_sc := a_sc (sv q s) ++ succ_of e |> <| a_ids := a_ids (sv q s) ++ send_ids [e] |>
+                           <| a_ev := a_ev (sv q s) ++ (if note e then [e] else []) |>.
 Proof.
-  unfold sv, emit. cbn [trace set]. cbn. rewrite succ_events_app, send_ids_app.
-  unfold succ_events at 2. cbn [flat_map]. rewrite app_nil_r. reflexivity.
+  unfold sv, emit. cbn [trace set]. cbn. rewrite succ_events_app, send_ids_app, filter_app_l.
+  unfold succ_events at 2. cbn [flat_map filter]. rewrite app_nil_r. destruct (note e); reflexivity.
 Qed.
 
-Lemma sv_emit_q q e s : succ_of e = [] -> send_ids [e] = [] -> sv q (emit e s) = sv q s.
-Proof. intros H1 H2. rewrite sv_emit, H1, H2. cbn. rewrite !app_nil_r. reflexivity. Qed.
+Lemma sv_emit_q q e s : succ_of e = [] -> send_ids [e] = [] -> note e = false -> sv q (emit e s) = sv q s.
+Proof. intros H1 H2 H3. rewrite sv_emit, H1, H2, H3. cbn. rewrite !app_nil_r. reflexivity. Qed.
 
 Lemma sv_set_state q st s : sv q (set_state st s) = sv q s.
 Proof. unfold set_state. destruct (state s =? st); [reflexivity|]. rewrite sv_emit_q by reflexivity. reflexivity. Qed.
@@ -139,13 +145,36 @@ Proof. unfold send_buffer_decreased. destruct (_ <? _); [apply sv_pq_trigger|ref
 Lemma sv_send_frame q f s : sv q (send_frame f s) = sv q s <| a_sn := a_sn (sv q s) ++ [f] |>.
 Proof. unfold send_frame. rewrite sv_idle_reset, sv_ka_reset, sv_send_ready. reflexivity. Qed.
 
-Lemma sv_do_close q s : sv q (do_close s) = sv q s <| a_cl := true |>.
+Lemma av_ev_ext (v : av) l1 l2 : l1 = l2 -> v <| a_ev := l1 |> = v <| a_ev := l2 |>.
+Proof. intros ->. reflexivity. Qed.
+
+Lemma sv_flush_fold q (l : list (N * bytes)) : forall s0,
+  sv q (fold_left (fun s (it : N * bytes) =>
+               emit (ESig SigSendFinished [PStrNum (fst it); PInt 0; PStr RES_TERMINATING])
+                    (s <| tx_map := dict_del (fst it) (tx_map s) |>)) l s0)
+  = sv q s0 <| a_ev := a_ev (sv q s0) ++ map term_ev l |>.
 Proof.
-  unfold do_close. cbv zeta.
-  match goal with |- context [if ?c then _ else _] => destruct c eqn:E end.
-  - cbn [closed set] in E. unfold sv. cbn. rewrite E. reflexivity.
-  - rewrite sv_emit_q by reflexivity.
-    match goal with |- context [if ?c then _ else _] => destruct c end; reflexivity.
+  induction l as [|it l IH]; intros s0; cbn [fold_left map].
+  - unfold sv. cbn. rewrite app_nil_r. reflexivity.
+  - rewrite IH, sv_emit. sv_norm. cbn [succ_of send_ids flat_map note]. rewrite N.eqb_refl.
+    unfold sv. cbn. rewrite !app_nil_r, <- app_assoc. reflexivity.
+Qed.
+
+Lemma sv_flush_pend_start q s :
+  sv q (flush_pend_start s) = sv q s <| a_ev := a_ev (sv q s) ++ map term_ev (a_ps (sv q s)) |> <| a_ps := [] |>.
+Proof. unfold flush_pend_start. rewrite sv_flush_fold. reflexivity. Qed.
+
+Lemma sv_upd_closed q v s : sv q (s <| closed := v |>) = sv q s <| a_cl := v |>. Proof. reflexivity. Qed.
+
+Lemma sv_do_close q s :
+  sv q (do_close s) =
+  if closed s then sv q s
+  else sv q s <| a_ev := a_ev (sv q s) ++ map term_ev (a_ps (sv q s)) |> <| a_ps := [] |> <| a_cl := true |>.
+Proof.
+  unfold do_close. cbv zeta. cbn [closed set].
+  destruct (closed s) eqn:E; [reflexivity|].
+  rewrite sv_emit_q by reflexivity. rewrite sv_upd_closed.
+  match goal with |- context [if ?c then _ else _] => destruct c end; sv_norm; rewrite sv_flush_pend_start; reflexivity.
 Qed.
 
 Lemma sv_merge_session_params q s : sv q (fst (merge_session_params s)) = sv q s.
@@ -156,7 +185,11 @@ Proof.
   destruct (negb (ascii (si_nodeid peer))); reflexivity.
 Qed.
 
-Lemma sv_tx_proxy q a s : sv q (fst (tx_proxy a s)) = sv q s \/ sv q (fst (tx_proxy a s)) = sv q s <| a_cl := true |>.
+(** ** Helpers as abstract transitions *)
+Lemma as_close q s : asteps (sv q s) (sv q (do_close s)).
+Proof. rewrite sv_do_close. destruct (closed s); [apply AS_refl|apply asteps_one, A_close]. Qed.
+
+Lemma as_tx_proxy q a s : asteps (sv q s) (sv q (fst (tx_proxy a s))).
 Proof.
   unfold tx_proxy.
   match goal with |- context [if ?c then ?x else ?y] =>
@@ -164,14 +197,10 @@ Proof.
   { destruct (_ <? CHUNK); cbn [fst]; [|reflexivity].
     sv_norm. rewrite sv_sbd. sv_norm. reflexivity. }
   match goal with |- context [if ?c then ?x else ?y] => destruct (if c then x else y) as [s1 ue] end.
-  cbn [fst] in H. destruct (is_nil (conn_tx s1)); [left; exact H|].
-  cbv zeta. destruct (_ =? 0); cbn [fst]; [right; rewrite sv_do_close, H; reflexivity|].
-  left. sv_norm. exact H.
+  cbn [fst] in H. rewrite <- H. destruct (is_nil (conn_tx s1)); [apply AS_refl|].
+  cbv zeta. destruct (_ =? 0); cbn [fst]; [apply as_close|].
+  sv_norm. apply AS_refl.
 Qed.
-
-(** ** Helpers as abstract transitions *)
-Lemma as_close q s : asteps (sv q s) (sv q (do_close s)).
-Proof. rewrite sv_do_close. apply asteps_one, A_close. Qed.
 
 Lemma as_check_sess_term q s : asteps (sv q s) (sv q (check_sess_term s)).
 Proof. unfold check_sess_term. destruct (_ && _); [apply as_close|apply AS_refl]. Qed.
@@ -236,8 +265,9 @@ Proof.
   match goal with |- context [if ?c then _ else _] => destruct c end; sv_push; exact H.
 Qed.
 
-Lemma as_process_queue q s : asteps (sv q s) (sv q (fst (process_queue s))).
+Lemma as_process_queue q s : closed s = false -> asteps (sv q s) (sv q (fst (process_queue s))).
 Proof.
+  intros Cl.
   unfold process_queue. cbv zeta. cbn [tx_tmp in_sess in_term pend_start set].
   destruct (tx_tmp s) as [p|] eqn:T.
   - cbn [fst]. eapply asteps_trans; [|apply as_send_next]. sv_push. apply AS_refl.
@@ -245,20 +275,12 @@ Proof.
     destruct (in_term s) eqn:IT; [cbn [fst]; sv_push; apply AS_refl|].
     destruct (pend_start s) as [|[id data] rest] eqn:PS; [cbn [fst]; sv_push; apply AS_refl|].
     cbn [fst]. eapply asteps_trans; [|apply as_send_next]. sv_push.
-    apply asteps_one. exact (A_start (sv q s) id data rest T IS IT PS).
+    rewrite sv_emit. sv_push. apply asteps_one.
+    pose proof (A_start (sv q s) id data rest T IS IT PS Cl) as H.
+    match goal with H : astep _ ?a |- astep _ ?b => replace b with a; [exact H|] end.
+    unfold sv. cbn. rewrite !app_nil_r. reflexivity.
 Qed.
 
-Lemma sv_flush_fold q (l : list (N * bytes)) : forall s0,
-  sv q (fold_left (fun s (it : N * bytes) =>
-               emit (ESig SigSendFinished [PStrNum (fst it); PInt 0; PStr RES_TERMINATING])
-                    (s <| tx_map := dict_del (fst it) (tx_map s) |>)) l s0) = sv q s0.
-Proof.
-  induction l as [|it l IH]; intros s0; cbn [fold_left]; [reflexivity|].
-  rewrite IH, sv_emit_q by reflexivity. reflexivity.
-Qed.
-
-Lemma sv_flush_pend_start q s : sv q (flush_pend_start s) = sv q s <| a_ps := [] |>.
-Proof. unfold flush_pend_start. rewrite sv_flush_fold. reflexivity. Qed.
 
 Lemma succ_refused id ack reason :
   succ_of (ESig SigSendFinished [PStrNum id; PInt ack; PStr (RES_REFUSED reason)]) = [].
@@ -266,6 +288,10 @@ Proof.
   cbn [succ_of]. destruct (RES_REFUSED reason =? RES_SUCCESS) eqn:E; [|reflexivity].
   apply N.eqb_eq in E. unfold RES_REFUSED, RES_SUCCESS in E. lia.
 Qed.
+
+Lemma note_refused id ack reason :
+  note (ESig SigSendFinished [PStrNum id; PInt ack; PStr (RES_REFUSED reason)]) = false.
+Proof. cbn [note]. apply N.eqb_neq. unfold RES_REFUSED, RES_TERMINATING. lia. Qed.
 
 Lemma as_handle_init q ka smru xmru nid ext s :
   closed s = false -> in_conn s = true ->
@@ -341,10 +367,9 @@ Proof.
   - cbn [pend_ack set]. destruct (negb (mem_N xid (pend_ack s))); cbn [fst]; [sv_push; apply AS_refl|].
     eapply asteps_trans; [|apply as_check_sess_term]. sv_push. rewrite sv_emit. sv_push.
     apply asteps_one. cbn [succ_of send_ids flat_map app]. rewrite N.eqb_refl.
-    replace (sv q s <| a_sc := a_sc (sv q s) ++ [(xid, len)] |> <| a_ids := a_ids (sv q s) ++ [] |>)
-      with (sv q s <| a_sc := a_sc (sv q s) ++ [(xid, len)] |>)
-      by (unfold sv; cbn; rewrite app_nil_r; reflexivity).
-    exact (A_succ (sv q s) fl xid len Hin En).
+    pose proof (A_succ (sv q s) fl xid len Hin En) as H.
+    match goal with H : astep _ ?a |- astep _ ?b => replace b with a; [exact H|] end.
+    unfold sv. cbn. rewrite !app_nil_r. reflexivity.
   - cbn [fst]. sv_push. apply AS_refl.
 Qed.
 
@@ -357,7 +382,7 @@ Proof.
   match goal with |- asteps _ (sv q (match tx_tmp ?x with _ => _ end)) =>
     assert (H : sv q x = sv q s <| a_ps := dict_del xid (pend_start s) |>);
     [|generalize dependent x] end.
-  { sv_push. rewrite sv_emit, succ_refused. sv_push. unfold sv. cbn. rewrite !app_nil_r. reflexivity. }
+  { sv_push. rewrite sv_emit, succ_refused, note_refused. sv_push. unfold sv. cbn. rewrite !app_nil_r. reflexivity. }
   intros x H.
   assert (G : asteps (sv q s) (sv q x)).
   { rewrite H. apply asteps_one. exact (A_refuse_ps (sv q s) r xid Hin). }
@@ -410,10 +435,13 @@ Proof.
   { change (a_pas (sv q s3) = a_pas (sv q s1)). rewrite H3. reflexivity. }
   eapply asteps_trans; [exact G1|].
   assert (Gc : asteps (sv q s1) (sv q (do_close s3))).
-  { rewrite sv_do_close, H3.
-    eapply AS_step; [apply asteps_one, A_close|].
-    replace (sv q s1 <| a_ic := true |> <| a_cl := true |>) with (sv q s1 <| a_cl := true |> <| a_ic := true |>) by reflexivity.
-    apply A_conn. right. left. reflexivity. }
+  { assert (C13 : closed s3 = closed s1).
+    { change (a_cl (sv q s3) = a_cl (sv q s1)). rewrite H3. reflexivity. }
+    rewrite sv_do_close, H3. destruct (closed s3) eqn:C3.
+    - apply asteps_one. apply A_conn. right. left. symmetry. exact C13.
+    - eapply AS_step; [apply asteps_one, A_close|].
+      match goal with |- astep ?a ?b => replace b with (a <| a_ic := true |>) by reflexivity end.
+      apply A_conn. right. left. reflexivity. }
   assert (Go : asteps (sv q s1) (sv q (if c_passive (cf s3) then s3 else send_sess_init s3))).
   { rewrite P3. destruct (c_passive (cf s1)) eqn:P.
     - rewrite H3. apply asteps_one. apply A_conn. left. exact P.
@@ -477,10 +505,9 @@ Proof.
     destruct (closed s); [apply AS_refl|].
     match goal with |- context [if ?c then _ else _] => destruct c end; [|apply AS_refl].
     cbv zeta.
-    pose proof (sv_tx_proxy q accept (s <| pend_set := false |>)) as H.
+    pose proof (as_tx_proxy q accept (s <| pend_set := false |>)) as H.
     destruct (tx_proxy accept (s <| pend_set := false |>)) as [s1 cont]. cbn [fst] in H.
-    assert (H' : asteps (sv q s) (sv q s1)).
-    { destruct H as [H|H]; rewrite H; sv_push; [apply AS_refl|apply asteps_one, A_close]. }
+    assert (H' : asteps (sv q s) (sv q s1)) by exact H.
     destruct cont; [exact H'|]. destruct idle; sv_push; exact H'.
   - (* ORx *)
     destruct (closed s); [apply AS_refl|].
@@ -493,9 +520,9 @@ Proof.
   - (* ORxEof *)
     destruct (closed s); [apply AS_refl|]. destruct (rx_alive s); [apply as_close|apply AS_refl].
   - (* OPQ *)
-    destruct (closed s); [apply AS_refl|].
+    destruct (closed s) eqn:Cl; [apply AS_refl|].
     match goal with |- context [if ?c then _ else _] => destruct c end; [|apply AS_refl].
-    pose proof (as_process_queue q s) as H.
+    pose proof (as_process_queue q s Cl) as H.
     destruct (process_queue s) as [s1 keep]. cbn [fst] in H.
     destruct keep; sv_push; exact H.
   - (* OFireKa *)
